@@ -16,7 +16,7 @@ EXPLANATION = (
     'consistent valuation (15 classes = presence pattern x equality partition; exhaustive). Mirror symmetry and "no Delete without a base" '
     'are read off the extracted function. Fingerprint::same is decided to be blake3== AND ftype== (R2), and fingerprints flow only into '
     '`same` (data independence: any other use is reported). reconcile() is checked to iterate keys(a) U keys(b), look each side up with the '
-    'same path, take the base per C07.R4 and push exactly the non-Noop actions (R4). The Lean mirror is evaluated on the same valuations as a '
+    'same path, take the base per C07.R4, reach reconcile_path for every path of the union before the next iteration (no fast path that skips the decision), and push exactly the non-Noop actions (R4). The Lean mirror is evaluated on the same valuations as a '
     'cross-check (informational).')
 ASSUMPTIONS = ['derived PartialEq on [u8;32] and on FileType is structural equality',
                'MIR of the analysed functions is loop-free (otherwise: no verdict)']
